@@ -22,7 +22,7 @@ func init() {
 		ID:        "C10",
 		Level:     "exploration",
 		Technique: "bounded exhaustive configuration enumeration (table x creation path x wrapper nesting x target format x entry point) on the real code; differential oracle: every route to the same content must give the bytes of the canonical route",
-		Rule: "15 tables (regular, ragged, zero-cell rows, separators first/last/consecutive, multi-line and wide texts, no header, empty header, header only, a table whose JSON rendering fails half-way, post-attach cell, alignment property set) x 16 creation paths (tabular.New, the five sub-package New, auto.New of every listed style) " +
+		Rule: "family deep-nesting: 1..14 texttable/markdown wrappers (or package-level renders) stacked on one table before its rows are added, rendered through the oldest and the outermost wrapper; family routes: 15 tables (regular, ragged, zero-cell rows, separators first/last/consecutive, multi-line and wide texts, no header, empty header, header only, a table whose JSON rendering fails half-way, post-attach cell, alignment property set) x 16 creation paths (tabular.New, the five sub-package New, auto.New of every listed style) " +
 			"x every nesting of <=2 (thorough <=3) wrappers from {csv, html, json, markdown, texttable, auto} x 6 target formats (csv, json, markdown, html, text default, text utf8-light) x every existing entry point (package Render/RenderTo, Wrap(t).Render/RenderTo, auto.Render/RenderTo, and the created/outermost object's own Render/RenderTo when it is a renderer of the target format); " +
 			"non-trivial = a non-core creation path or a non-empty wrapper chain; distinct by (table, path, chain, target)",
 		Assumptions: []string{"html has no package-level Render/RenderTo: only entry points that exist are compared", "the canonical route is tabular.New() + X.Wrap(t).Render()"},
@@ -217,7 +217,82 @@ func c10Targets() []c10Target {
 	}
 }
 
+// c10Deep: many wrappers of the measuring kinds around one table (each registers another callback on it).
+func c10Deep(x *X) {
+	x.Explore("deep-nesting", ExploreOpts{ShardDepth: 2, Bound: "nesting depth 1..14 of texttable/markdown wrappers (alternating or same kind), or 1..14 package-level renders first; then text and markdown targets through the OLDEST wrapper and through a fresh one"}, func(c *Chooser) {
+		depth := 1 + c.Choose(14)
+		mode := c.Choose(3) // 0 nest texttable, 1 nest alternating, 2 repeated package-level renders
+		startMd := c.Bool()
+		build := func(t tabular.Table) {
+			t.AddHeaders("h1", "h2")
+			t.AddRowItems("a", "bbbb")
+			t.AddRowItems("cc")
+		}
+		canonT := tabular.New()
+		build(canonT)
+		wantText, _ := texttable.Wrap(canonT).Render()
+		canonM := tabular.New()
+		build(canonM)
+		wantMd, _ := markdown.Wrap(canonM).Render()
+		var oldestText *texttable.TextTable
+		var oldestMd *markdown.MarkdownTable
+		var t tabular.Table
+		if startMd {
+			oldestMd = markdown.New()
+			t = oldestMd
+		} else {
+			oldestText = texttable.New()
+			t = oldestText
+		}
+		c.Logf("start with %T; mode %d; depth %d; rows added AFTER the wrapping", t, mode, depth)
+		outer := t
+		for i := 0; i < depth; i++ {
+			switch mode {
+			case 0:
+				outer = texttable.Wrap(outer)
+			case 1:
+				if i%2 == 0 {
+					outer = markdown.Wrap(outer)
+				} else {
+					outer = texttable.Wrap(outer)
+				}
+			case 2:
+				if i%2 == 0 {
+					texttable.Render(t)
+				} else {
+					markdown.Render(t)
+				}
+			}
+		}
+		build(outer) // cells nobody has measured yet
+		x.Transition(depth + 3)
+		x.Nontrivial(fmt.Sprint(depth, mode, startMd))
+		tags := []string{"many_wrappers_on_one_table", fmt.Sprintf("depth:%d", depth)}
+		x.Clause("C10.same_bytes")
+		if oldestText != nil {
+			if out, err := oldestText.Render(); err != nil || out != wantText {
+				x.Fail("C10.same_bytes", tags, "the table's original TextTable wrapper, after %d further wrappers/renders (mode %d), renders (err %v)\n%s\nwant\n%s", depth, mode, err, out, wantText)
+				return
+			}
+		}
+		if oldestMd != nil {
+			if out, err := oldestMd.Render(); err != nil || out != wantMd {
+				x.Fail("C10.same_bytes", tags, "the table's original MarkdownTable wrapper, after %d further wrappers/renders (mode %d), renders (err %v)\n%s\nwant\n%s", depth, mode, err, out, wantMd)
+				return
+			}
+		}
+		if out, err := texttable.Render(outer); err != nil || out != wantText {
+			x.Fail("C10.same_bytes", tags, "texttable.Render of the outermost wrapper (depth %d, mode %d) gives (err %v)\n%s\nwant\n%s", depth, mode, err, out, wantText)
+			return
+		}
+		if out, err := markdown.Render(outer); err != nil || out != wantMd {
+			x.Fail("C10.same_bytes", tags, "markdown.Render of the outermost wrapper (depth %d, mode %d) gives (err %v)\n%s\nwant\n%s", depth, mode, err, out, wantMd)
+		}
+	})
+}
+
 func runC10(x *X) {
+	c10Deep(x)
 	tables := c10Tables()
 	creators := c10Creators()
 	targets := c10Targets()
